@@ -170,7 +170,10 @@ class Default(_Bodies):
                     # overwritten at the top level of the branch before any other mention there; not read by the test, nor by
                     # the defaults already taken (they stand after it)
                     first = next((k for k, s in enumerate(st.body) if self._mentions(s, x)), None)
-                    ok = first is not None and isinstance(st.body[first], ast.Assign) and len(st.body[first].targets) == 1 \
+                    # (nothing in front of that assignment leaves the branch for the code after the `if`: a break / continue there would reach
+                    # a later use with the default)
+                    early = first is not None and any(isinstance(y, (ast.Break, ast.Continue)) for s in st.body[:first] for y in ast.walk(s))
+                    ok = first is not None and not early and isinstance(st.body[first], ast.Assign) and len(st.body[first].targets) == 1 \
                         and isinstance(st.body[first].targets[0], ast.Name) and st.body[first].targets[0].id == x \
                         and not self._mentions(st.body[first].value, x) and not self._mentions(st.test, x) \
                         and not any(self._mentions(m, x) for m in moved) \
